@@ -335,6 +335,7 @@ def _single_exit(fd):
                                          isinstance(st.value, ast.Constant))]
     if not body:
         return None
+    strict = True
     for i, st in enumerate(body):
         for n in ast.walk(st):
             if isinstance(n, (ast.FunctionDef, ast.AsyncFunctionDef,
@@ -344,8 +345,51 @@ def _single_exit(fd):
                 return None
             if isinstance(n, ast.Return) and not (
                     n is st and i == len(body) - 1):
+                strict = False
+    if strict:
+        return body
+    return _tail_returns_to_single_exit(body)
+
+
+def _tail_returns_to_single_exit(body):
+    """A helper whose returns all sit in tail position of a terminal
+    if/elif/else chain is rewritten to assign a result variable and return
+    it once (same behaviour, single exit); None when a return sits anywhere
+    else."""
+    n_ret = sum(1 for st in body for n in ast.walk(st)
+                if isinstance(n, ast.Return))
+    seen = [0]
+
+    def conv(blk):
+        if not blk:
+            return None
+        last = blk[-1]
+        head = blk[:-1]
+        if isinstance(last, ast.Return):
+            seen[0] += 1
+            val = last.value if last.value is not None else \
+                ast.Constant(None)
+            return head + [ast.copy_location(ast.Assign(
+                targets=[ast.Name(id='_result', ctx=ast.Store())],
+                value=val), last)]
+        if isinstance(last, ast.If) and last.orelse:
+            b1 = conv(last.body)
+            b2 = conv(last.orelse)
+            if b1 is None or b2 is None:
                 return None
-    return body
+            new = ast.copy_location(ast.If(test=last.test, body=b1,
+                                           orelse=b2), last)
+            return head + [new]
+        return None
+    body = copy.deepcopy(body)
+    out = conv(body)
+    if out is None or seen[0] != n_ret:
+        return None
+    out.append(ast.copy_location(ast.Return(
+        value=ast.Name(id='_result', ctx=ast.Load())), body[-1]))
+    for st in out:
+        ast.fix_missing_locations(st)
+    return out
 
 
 class _Rename(ast.NodeTransformer):
